@@ -324,10 +324,10 @@ def gen():
                 extra = " if let Some(x) = self.%s { lemma_vlen_enc(x.0 as nat); }" % PROPS[q][2]
             rv = "reveal(enc_%s_upto_%d); " % (name, k) if k >= 1 else ""
             w("  proof { %sassert(property_len == ups.len() + ups_sum4(ups) + enc_%s_upto_%d(*self).len());%s }" % (rv, name, k, extra))
-        w("@before `write_var_int ( writer , property_len ) ? ;`")
+        w("@before `write_var_int ( writer ,`")
         rv = "reveal(enc_%s_upto_%d); " % (name, len(props)) if props else ""
         w("  proof { %sassert(property_len == ups.len() + ups_sum4(ups) + enc_%s_upto_%d(*self).len()); assert(property_len == enc_%s_body(*self).len()); }" % (rv, name, len(props), name))
-        w("@after `write_var_int ( writer , property_len ) ? ;`")
+        w("@after `write_var_int ( writer ,`")
         w("  let ghost w1 = writer.written();")
         for k, q in enumerate(props):
             if k == 0:
